@@ -48,6 +48,20 @@ use quote::quote;
 use syn::Ident;
 use thiserror::Error;
 
+// Verification seams: compiled out unless built with `--cfg wgsl_to_wgpu_verif`.
+#[cfg(wgsl_to_wgpu_verif)]
+pub mod verif_hooks;
+#[cfg(wgsl_to_wgpu_verif)]
+macro_rules! verif_point {
+    ($site:expr) => {
+        crate::verif_hooks::point($site)
+    };
+}
+#[cfg(not(wgsl_to_wgpu_verif))]
+macro_rules! verif_point {
+    ($site:expr) => {};
+}
+
 mod bindgroup;
 mod consts;
 mod entry;
@@ -312,30 +326,43 @@ fn create_shader_module_inner(
     wgsl_include_path: Option<&str>,
     options: WriteOptions,
 ) -> Result<String, CreateModuleError> {
+    verif_point!("inner:start");
     let module = naga::front::wgsl::parse_str(wgsl_source)
         .map_err(|error| CreateModuleError::ParseError { error })?;
 
+    verif_point!("inner:parsed");
     if let Some(options) = options.validate.as_ref() {
         naga::valid::Validator::new(ValidationFlags::all(), options.capabilities)
             .validate(&module)
             .map_err(|error| CreateModuleError::ValidationError { error })?;
     }
 
+    verif_point!("inner:validated");
     let bind_group_data = get_bind_group_data(&module)?;
 
+    verif_point!("inner:bind_group_data");
     let global_stages = wgsl::global_shader_stages(&module);
     let entry_stages = wgsl::entry_stages(&module);
 
+    verif_point!("inner:stages");
     // Write all the structs, including uniforms and entry function inputs.
     let structs = structs::structs(&module, options);
+    verif_point!("inner:structs");
     let consts = consts::consts(&module);
+    verif_point!("inner:consts");
     let bind_groups_module = bind_groups_module(&bind_group_data, &global_stages);
+    verif_point!("inner:bind_groups_module");
     let vertex_module = vertex_struct_methods(&module);
+    verif_point!("inner:vertex_module");
     let compute_module = compute_module(&module);
+    verif_point!("inner:compute_module");
     let entry_point_constants = entry_point_constants(&module);
+    verif_point!("inner:entry_point_constants");
     let vertex_states = vertex_states(&module);
+    verif_point!("inner:vertex_states");
     let fragment_states = fragment_states(&module);
 
+    verif_point!("inner:fragment_states");
     // Use a string literal if no include path is provided.
     let included_source = wgsl_include_path
         .map(|p| quote!(include_str!(#p)))
@@ -375,6 +402,7 @@ fn create_shader_module_inner(
         }
     };
 
+    verif_point!("inner:pipeline_layout");
     let override_constants = pipeline_overridable_constants(&module);
 
     let push_constant_stages = push_constant_stages.map(|stages| {
@@ -398,6 +426,7 @@ fn create_shader_module_inner(
         #create_pipeline_layout
     };
 
+    verif_point!("inner:output");
     if options.rustfmt {
         Ok(pretty_print_rustfmt(output))
     } else {
@@ -443,11 +472,13 @@ fn push_constant_range_stages(
 }
 
 fn pretty_print(output: TokenStream) -> String {
+    verif_point!("pretty_print:start");
     let file = syn::parse_file(&output.to_string()).unwrap();
     prettyplease::unparse(&file)
 }
 
 fn pretty_print_rustfmt(tokens: TokenStream) -> String {
+    verif_point!("rustfmt:start");
     let value = tokens.to_string();
     // TODO: Return errors?
     if let Ok(mut proc) = Command::new("rustfmt")
